@@ -258,6 +258,14 @@ Dispatch ==
        /\ SampleStep(d.mid, d.r, 1)
   /\ UNCHANGED acfg
 
+\* a request at an empty aperture: _no_members answers it, neither _OnGet nor _AdjustAperture runs
+DispatchEmpty ==
+  /\ Size(st) = 0
+  /\ st' = st
+  /\ Note(NoMemberCheck(AbQ, 0, GA(st), GI(st)))
+  /\ ab' = WithOpens(NoMemberUpd(AbQ, 0, GA(st), GI(st)), st)
+  /\ UNCHANGED acfg
+
 Put(e) ==
   /\ e \in st.act /\ st.ld[e] > 0
   /\ \E r \in PutSetP(st, e, All, Same) :
@@ -320,7 +328,7 @@ RunTask ==
        /\ PlainStep(s2)
   /\ UNCHANGED acfg
 
-Next == \/ Dispatch \/ PutDrain \/ RunTask \/ JitterFire
+Next == \/ Dispatch \/ DispatchEmpty \/ PutDrain \/ RunTask \/ JitterFire
         \/ \E e \in Members : Put(e) \/ Join(e) \/ Leave(e)
         \/ \E e \in Members, c \in FlipStates : ChanFlip(e, c)
         \/ \E o \in st.opens, ok \in BOOLEAN : OpenDone(o, ok)
@@ -341,6 +349,9 @@ QuietOk == st.runq = <<>> =>
 
 \* pending endpoints do not leak: pending implies an open in flight, a completion being processed,
 \* or the jitter greenlet waiting
+\* with min_size >= 1 the aperture is empty only when nobody is idle (a leaver is replaced at once)
+NeverEmptyWithIdle == (MinSize >= 1 /\ Size(st) = 0) => st.idle = {}
+
 NoPendingLeak == (st.pend # {}) => (st.opens # {} \/ st.runq # <<>>)
 
 SumLd == LET RECURSIVE Sum(_)
